@@ -34,6 +34,18 @@ TLen == /\ More /\ Ev.op = "Len"
         /\ last'.n = Ev.n
         /\ UNCHANGED log /\ l' = l + 1
 
+\* "The analytic signal has the input as its real part": a logging-boundary predicate.  The log carries
+\* dev = max_i |Re(result[i]) - input[i]| in units of 2^-52 * |input|_1 (rounded up), computed from the values
+\* the real code was given and returned; the specification states the bound: rounding of one forward and one
+\* inverse complex FFT of length n, for which FFTPACK's passes lose O(eps) per factor 2,3,4,5 and about
+\* 0.2 p^2 eps for a prime factor p > 5 (measured, see ExactDft.tla) - 1024 n + 8 P(n)^2 with P the largest
+\* prime factor leaves a factor > 16 over the measured errors; a wrong bin, scale or stale buffer is O(1).
+SmallDivs(m) == {d \in 2 .. 101 : d * d <= m /\ m % d = 0}
+RECURSIVE LPF(_)
+LPF(m) == IF SmallDivs(m) = {} THEN m
+          ELSE LPF(m \div (CHOOSE d \in SmallDivs(m) : \A e \in SmallDivs(m) : d <= e))
+RealPartTol(n) == 1024 * n + 8 * LPF(n) * LPF(n)
+
 TTransform ==
         /\ More /\ Ev.op = "T"
         /\ Transform(Ev.obj, Ev.kind, Ev.sl, Ev.dl, Ev.inp, Ev.mode, Ev.tok)
@@ -41,6 +53,7 @@ TTransform ==
         /\ last'.out = "ok" =>
              /\ last'.retdst = Ev.retdst          \* dst, when given, is what is returned
              /\ Ev.mode # "same" => Ev.srcok      \* the input is not modified
+             /\ Ev.kind = "Hilbert.as" => Ev.dev <= RealPartTol(len[Ev.obj])
         /\ UNCHANGED log /\ l' = l + 1
 
 \* a new group of histories: forget the objects and what was learnt of F
